@@ -41,7 +41,7 @@ def cases(ctx):
         ep, en = gen.easy(rng)
         sc, ec = gen.cfg(rng)
         yield {"pos": pos, "neg": neg, "ep": ep, "en": en, "sc": sc, "ec": ec, "kind": kind,
-               "u": rng.uniform(0, 1, 12), "form": str(rng.choice(["array", "array", "array", "scalar", "list", "2d"])),
+               "u": rng.uniform(0, 1, 12), "form": str(rng.choice(["array", "array", "array", "scalar", "list", "2d", "f32"])),
                "via": str(rng.choice(derive.VIAS)), "_seed": int(rng.integers(1 << 31))}
 
 
@@ -96,6 +96,11 @@ def execute(ctx, case):
                 fn(tg.tolist(), method=method)
             elif form == "2d":
                 fn(np.resize(tg, (2, 8)), method=method)
+            elif form == "f32":  # targets from a single-precision pipeline: dyadic rates, exact in float32 (and float16)
+                dy = np.round(np.clip(tg, -0.25, 1.25) * 64) / 64
+                fn(dy.astype(np.float32), method=method)
+                fn(np.float32(dy[len(dy) // 2]), method=method)
+                fn(dy.astype(np.float16), method=method)
             else:
                 fn(tg, method=method)
         getattr(s, "threshold_at_" + ALIAS[m])(tg)
